@@ -42,8 +42,10 @@ def units(tier, seed):
     classes = [c for c in common.select_classes(e1.binary_classes(), tier, 'C01')
                if c.__name__ not in _regions.whole_class_regions()]
     UNCOVERED[:] = common.uncovered_report(e1.binary_classes(), classes)
+    from checks import hello
+    extra_hello = [hello.unit(('K3',), 'K3 round trip')]
     from checks import foundation
-    return list([unit_for(c) for c in classes]) + foundation.units(tier, seed)
+    return list([unit_for(c) for c in classes]) + extra_hello + foundation.units(tier, seed)
 
 
 from checks import regions as _regions
